@@ -132,13 +132,9 @@ def plUpdate (d : Db) (i : Int) (title : Bytes) (parent next : Int) : Db × Res 
 
 def fires (r : Row Ent) : Bool := r.val.track > 0
 
-/-- playlist_entity_table::get(list, track) — `WHERE listId = ? AND trackId = ?`, whatever the database uuid;
-the callback overwrites `result`. -/
-def peGet (d : Db) (l t : Int) : Option (Row Ent) :=
-  (d.pe.filter (fun r => r.key == l && r.val.track == t)).getLast?
-
-/-- add_back's own duplicate test — `WHERE listId = ? AND trackId = ? AND databaseUuid = ?`; the callback
-overwrites `existing_id`. -/
+/-- playlist_entity_table::get(list, track, database uuid) and add_back's own duplicate test —
+`WHERE listId = ? AND trackId = ? AND databaseUuid = ?`; the callback overwrites its result.
+(The two-argument get(list, track), which ignores the uuid, is no longer used by the crate API.) -/
 def peFind (d : Db) (l t u : Int) : Option (Row Ent) :=
   (d.pe.filter (fun r => r.key == l && r.val.track == t && r.val.uuid == u)).getLast?
 
@@ -149,6 +145,13 @@ def peAddBack (d : Db) (l t u : Int) (throwIfDup : Bool) : Db × Res Out :=
   | none =>
     let i := d.peSeq + 1
     ({ d with pe := appendBack d.pe i l ⟨t, u⟩, peSeq := i }, .ok (some i))
+
+/-- One round of database_impl::remove_track's loop: in list `l`, the entry of track `t` of this database
+(`playlist_entity_table::get(list, track, uuid)`) is removed by its row id, if there is one. -/
+def rmTrackIn (t : Int) (pe : Table Ent) (l : Int) : Table Ent :=
+  match (pe.filter (fun r => r.key == l && r.val.track == t && r.val.uuid == 0)).getLast? with
+  | some e => deleteKeyed fires pe l e.id
+  | none => pe
 
 /-- playlist_table::remove (after its existence test): one transaction — entities of the crate and of its
 descendants, then the rows themselves (the first DELETE fires the trigger that
@@ -215,13 +218,10 @@ def step (d : Db) : Op → Db × Res Out
   | .createTrack =>
     let i := d.trSeq + 1
     ({ d with tracks := d.tracks ++ [i], trSeq := i }, .ok (some i))
-  -- database_impl::remove_track: one transaction — memberships list by list, then track_table::remove
+  -- database_impl::remove_track: one transaction — memberships (entries of this database) list by list, then track_table::remove
   -- (which throws when there is no such track: everything is rolled back)
   | .removeTrack t =>
-    let pe := (ids d.pl).foldl (fun pe l =>
-      match (pe.filter (fun r => r.key == l && r.val.track == t)).getLast? with
-      | some e => deleteKeyed fires pe l e.id
-      | none => pe) d.pe
+    let pe := (ids d.pl).foldl (rmTrackIn t) d.pe
     if d.tracks.contains t then ({ d with pe := pe, tracks := d.tracks.filter (· != t) }, .ok none)
     else (d, .throw .invalid_argument)
   -- crate_impl::add_track
@@ -229,9 +229,9 @@ def step (d : Db) : Op → Db × Res Out
     if !plExists d c then (d, .throw (exn "crate_deleted"))
     else if !d.tracks.contains t then (d, .throw (exn "track_deleted"))
     else peAddBack d c t 0 false        -- the row carries library_->information().get().uuid
-  -- crate_impl::remove_track
+  -- crate_impl::remove_track: the entry of this database (uuid tag 0)
   | .removeTrackFrom c t =>
-    match peGet d c t with
+    match peFind d c t 0 with
     | some e => ({ d with pe := deleteKeyed fires d.pe c e.id }, .ok none)
     | none => (d, .ok none)
   -- crate_impl::clear_tracks
@@ -273,8 +273,12 @@ def qValid (d : Db) (c : Int) : Bool := plExists d c
 def qByName (d : Db) (n : Bytes) : List Int := (d.pl.filter (·.val == n)).map (·.id)
 /-- database::root_crate_by_name / crate::sub_crate_by_name (parent 0 = root) -/
 def qByParentName (d : Db) (p : Int) (n : Bytes) : Option Int := findId d p n
-/-- crate::tracks (ordered): playlist_entity_table::track_ids -/
-def qTracks (d : Db) (c : Int) : Res (List Int) := (walkBack d.pe c).bind fun l => .ok (l.map (·.val.track))
+/-- crate::tracks (ordered): the entries of get_for_list that belong to this database -/
+def qTracks (d : Db) (c : Int) : Res (List Int) :=
+  (walkBack d.pe c).bind fun l => .ok ((l.filter (·.val.uuid == 0)).map (·.val.track))
+
+/-- playlist_entity_table::track_ids (table level: every entry, whatever its database) -/
+def qTrackIds (d : Db) (l : Int) : Res (List Int) := (walkBack d.pe l).bind fun rows => .ok (rows.map (·.val.track))
 /-- playlist_entity_table::get_for_list as (entity id, track id, database uuid tag) -/
 def qEntities (d : Db) (l : Int) : Res (List (Int × Int × Int)) :=
   (walkBack d.pe l).bind fun rows => .ok (rows.map fun r => (r.id, r.val.track, r.val.uuid))
